@@ -46,3 +46,56 @@ package wallet
 //@ func (*Wallet).ProcDumpPrivkey [C38]
 //@   opt safety=assumed
 //@   ensures old(wallet.isWalletLocked) != 0 ==> result1 != nil && !called(getPrivKeyFromStore)
+
+// ---- C37: the seed decrypts correctly across formats (AES-GCM) -----------------------------------------
+// (NewGCM cannot fail for an AES block: 16-byte block size.)
+// gcmSeal / gcmOpen / gcmOk: AES-256-GCM with empty additional data (trusted; the only facts used: opening
+// what was sealed under the same key and nonce succeeds and returns the plaintext). kdf: wallet/common.
+//@ smt (declare-fun gcmSeal (Bytes Bytes Bytes) Bytes)
+//@ smt (declare-fun gcmOpen (Bytes Bytes Bytes) Bytes)
+//@ smt (declare-fun gcmOk (Bytes Bytes Bytes) Bool)
+//@ smt (assert (forall ((k Bytes) (n Bytes) (p Bytes)) (! (and (gcmOk k n (gcmSeal k n p)) (= (gcmOpen k n (gcmSeal k n p)) p)) :pattern ((gcmSeal k n p)))))
+//@ trusted func crypto/cipher.NewGCM
+//@   frame nothing
+//@   ensures result1 == nil && result0 != nil && result0.aeskey == cipher.aeskey
+//@ trusted func (crypto/cipher.AEAD).Seal
+//@   frame allocates
+//@   ensures isnil(dst) && isnil(additionalData) ==> bytes(result) == gcmSeal(recv.aeskey, old(bytes(nonce)), old(bytes(plaintext)))
+//@ trusted func (crypto/cipher.AEAD).Open
+//@   frame allocates
+//@   ensures isnil(dst) && isnil(additionalData) ==> (result1 == nil) == gcmOk(recv.aeskey, old(bytes(nonce)), old(bytes(ciphertext)))
+//@   ensures isnil(dst) && isnil(additionalData) && result1 == nil ==> bytes(result0) == gcmOpen(recv.aeskey, old(bytes(nonce)), old(bytes(ciphertext)))
+
+// new format: nonce(12) ++ Seal(kdf(password), nonce, seed)
+//@ func AesgcmEncrypter [C37]
+//@   opt safety=assumed overflow=assumed bytescat=yes
+//@   assert@call NewCipher: len(arg0) == 32 && bytes(arg0) == kdf(bytes(password))
+//@   assert@call NewGCM: arg0.aeskey == kdf(bytes(password))
+//@   assert@call Seal: arg0.aeskey == kdf(bytes(password)) && isnil(arg1) && isnil(arg4) && len(arg2) == 12 && bytes(arg3) == old(bytes(seed))
+//@   assert@call builtin.append: bytes(ciphertext) == gcmSeal(kdf(bytes(password)), bytes(nonce), old(bytes(seed))) && len(nonce) == 12
+//@   ensures result1 == nil ==> len(result0) >= 12 && bsub(bytes(result0), 12, len(result0)) == gcmSeal(kdf(bytes(password)), bsub(bytes(result0), 0, 12), old(bytes(seed)))
+
+// the new format is tried first (first 12 bytes as nonce); when it does not authenticate, the legacy
+// fixed nonce kdf(password)[:12] over the whole blob
+//@ func AesgcmDecrypter [C37]
+//@   opt safety=assumed overflow=assumed
+//@   assert@call NewCipher: len(arg0) == 32 && bytes(arg0) == kdf(old(bytes(password)))
+//@   assert@call NewGCM: arg0.aeskey == kdf(old(bytes(password)))
+//@   assert@call Open: arg0.aeskey == kdf(old(bytes(password))) && isnil(arg1) && isnil(arg4)
+//@   assert@call Open#0: len(seed) > 12 && bytes(arg2) == bsub(old(bytes(seed)), 0, 12) && bytes(arg3) == bsub(old(bytes(seed)), 12, len(seed))
+//@   assert@call Open#1: bytes(arg2) == bsub(kdf(old(bytes(password))), 0, 12) && bytes(arg3) == old(bytes(seed))
+//@   assert@call Open#1: !(len(seed) > 12 && gcmOk(kdf(old(bytes(password))), bsub(old(bytes(seed)), 0, 12), bsub(old(bytes(seed)), 12, len(seed))))
+//@   ensures result1 == nil && len(seed) > 12 && gcmOk(kdf(old(bytes(password))), bsub(old(bytes(seed)), 0, 12), bsub(old(bytes(seed)), 12, len(seed))) ==> bytes(result0) == gcmOpen(kdf(old(bytes(password))), bsub(old(bytes(seed)), 0, 12), bsub(old(bytes(seed)), 12, len(seed)))
+//@   ensures result1 == nil && !(len(seed) > 12 && gcmOk(kdf(old(bytes(password))), bsub(old(bytes(seed)), 0, 12), bsub(old(bytes(seed)), 12, len(seed)))) ==> bytes(result0) == gcmOpen(kdf(old(bytes(password))), bsub(kdf(old(bytes(password))), 0, 12), old(bytes(seed)))
+//@   ensures len(seed) > 12 && gcmOk(kdf(old(bytes(password))), bsub(old(bytes(seed)), 0, 12), bsub(old(bytes(seed)), 12, len(seed))) ==> result1 == nil
+
+// round trips at the level of the specifications above
+//@ lemma gcm_roundtrip_new [C37]
+//@   forall k Bytes, n Bytes, p Bytes
+//@   requires blen(n) == 12
+//@   ensures blen(bcat(n, gcmSeal(k, n, p))) >= 12
+//@   ensures gcmOk(k, bsub(bcat(n, gcmSeal(k, n, p)), 0, 12), bsub(bcat(n, gcmSeal(k, n, p)), 12, 12 + blen(gcmSeal(k, n, p))))
+//@   ensures gcmOpen(k, bsub(bcat(n, gcmSeal(k, n, p)), 0, 12), bsub(bcat(n, gcmSeal(k, n, p)), 12, 12 + blen(gcmSeal(k, n, p)))) == p
+//@ lemma gcm_roundtrip_legacy [C37]
+//@   forall k Bytes, p Bytes
+//@   ensures gcmOk(k, bsub(k, 0, 12), gcmSeal(k, bsub(k, 0, 12), p)) && gcmOpen(k, bsub(k, 0, 12), gcmSeal(k, bsub(k, 0, 12), p)) == p
